@@ -78,7 +78,7 @@ def tier_years(ctx, n_quick: int) -> List[int]:
     leap flag — proved for the SQL macros by PeriodP.render_impl_S4 / normalize_plain_S4 — so every kind of year is represented)"""
     if ctx.tier == "thorough":
         return YEARS
-    return sorted(set(ctx.rng.sample(YEARS, n_quick) + [1900, 2000, 2015, 2020, 2021, 2100]))
+    return sorted(set(ctx.rng.sample(YEARS, min(n_quick, len(YEARS))) + [y for y in (1900, 2000, 2015, 2020, 2021, 2100) if y in YEARS]))
 
 
 def x_strings(ctx) -> None:
@@ -119,14 +119,14 @@ def x_strings(ctx) -> None:
                            for k in bad[name][:2] if (name, k) in loc)
         ctx.oblige(f"X: {what}, every valid period and documented spelling of {len(years)} years of 1900-2100", not bad[name], f"{len(bad[name])} shards differ: {detail}")
     # engine vs the documented representation (the property itself)
-    for k in bad["spec"][:3]:
+    for k in bad["spec"][:2]:
         d = loc.get(("spec", k))
         ctx.violation(f"render-or-spelling:{k[1]}:differs-from-documented",
                       f"period number {d[0] + 1 if d else '?'} of {k}: documented {d[2] if d else '?'!r}, engine {d[3] if d else '?'!r}",
                       {"kind": "spec_row", "year": k[0], "ind": k[1], "diff": d})
-    ctx.oblige("X: engine output = documented canonical form and renderings (Period.canonical/render), spellings aligned, 1900-2100",
+    ctx.oblige(f"X: engine output = documented canonical form and renderings (Period.canonical/render), spellings aligned, {len(years)} years of 1900-2100",
                not bad["spec"], f"{len(bad['spec'])} shards")
-    nb = py_vs_sql(ctx, sql, py, "1900-2100")
+    nb = py_vs_sql(ctx, sql, py, f"{len(years)} years of 1900-2100")
     ctx.cov["x_valid_periods"] = sum(len(v) for v in spec.values())
     ctx.cov["x_strings_compared"] = nstr
     ctx.cov["py_sql_disagreements_1900_2100"] = nb
@@ -145,8 +145,9 @@ def x_strings(ctx) -> None:
 
 def x_sampled_years(ctx) -> None:
     """years of 0001..9999 outside 1900-2100, compared POINTWISE (this is also the path that localises fingerprint mismatches)"""
-    n = 200 if ctx.tier == "thorough" else 10
-    ys = sorted(set([1, 4, 999, 1000, 1600, 9999] + [ctx.rng.randint(1, 999) for _ in range(max(2, n // 10))]
+    n = 200 if ctx.tier == "thorough" else 5
+    ys = sorted(set(([1, 4, 999, 1000, 1600, 9999] if ctx.tier == "thorough" else [4, 999, 1000, 9999])
+                    + [ctx.rng.randint(1, 999) for _ in range(max(1, n // 10))]
                     + [ctx.rng.randint(1000, 9999) for _ in range(n)]))
     hi = [y for y in ys if y >= 1000]
     lo = [y for y in ys if y < 1000]
@@ -157,7 +158,7 @@ def x_sampled_years(ctx) -> None:
     # all sampled years by fingerprint; two of them (one below 1000, one above) pointwise as well
     fp = P.coq_fp("tie_string_fp", keys, {}, "c21sf")
     pw_years = [lo[len(lo) // 2], hi[len(hi) // 2]]
-    pw_keys = [(y, i) for y in pw_years for i in P.INDS]
+    pw_keys = [(y, i) for y in pw_years for i in (P.INDS if ctx.tier == "thorough" else "ASQMW")]
     rows = P.coq_rows("tie_string_rows", pw_keys, {}, "c21s")
     bad_sql, bad_py, bad_spec = [], [], []
     nstr = 0
@@ -206,9 +207,9 @@ def x_sampled_years(ctx) -> None:
 
 
 def x_py_shift(ctx) -> None:
-    ys = tier_years(ctx, 10)
+    ys = tier_years(ctx, 3)
     keys = [(y, i) for y in ys for i in P.INDS]
-    shifts = {k: sorted(set([-1, 1, ctx.rng.randint(-8, 8), ctx.rng.randint(-8, 8)])) for k in keys}
+    shifts = {k: sorted(set([-1, 1, ctx.rng.randint(-8, 8)])) for k in keys}
     t0 = time.time()
     py = P.py_shift_rows(ys, shifts)
     fp = P.coq_fp("tie_py_shift_fp", keys, {k: " " + P.zlist(v) for k, v in shifts.items()}, "c21ps")
